@@ -458,7 +458,19 @@ def _minmax(which):
             his = [ops.bounds(s)[1] for s in sets]
             return Interval(which(los), which(his))
         if not items:
+            if "default" in kwargs:
+                return kwargs["default"]
             it.may_raise("ValueError", node, "min()/max() of empty sequence", certain=True)
+        if kwargs.get("key") is not None or any(isinstance(x, Obj) for x in items):
+            # string value objects order by their text (as sorted() above); the first extreme item wins, as in CPython
+            keys = [_keyfunc(it, kwargs.get("key"), node)(x) for x in items]
+            if any(is_abstract(k) for k in keys):
+                raise _CE("min/max on abstract keys")
+            ks = [ops.strval(k) if isinstance(k, Obj) else k for k in keys]
+            try:
+                return items[which(range(len(items)), key=lambda i: ks[i])]
+            except TypeError:
+                it.may_raise("TypeError", node, "unorderable min/max keys", certain=True)
         return which(items)
     return f
 
@@ -534,9 +546,26 @@ def _b_divmod(it, args, kwargs, node):
     return (ops.binop(it, "FloorDiv", a, b, node), ops.binop(it, "Mod", a, b, node))
 
 
+def _b_pow(it, args, kwargs, node):
+    from . import ops
+    if all(isinstance(a, int) and not isinstance(a, bool) for a in args) and len(args) in (2, 3):
+        try:
+            return pow(*args)
+        except (ValueError, ZeroDivisionError) as e:
+            it.may_raise(type(e).__name__, node, str(e), certain=True)
+    r = ops.binop(it, "Pow", args[0], args[1], node)
+    if len(args) == 3:
+        r = ops.binop(it, "Mod", r, args[2], node)
+    return r
+
+
 def _b_map(it, args, kwargs, node):
     from . import ops
     f = args[0]
+    if any(isinstance(a, CycleVal) for a in args[1:]):
+        # map(f, xs, cycle(ws)): the shortest finite argument bounds it, exactly as zip() does
+        rows = ops.ZipVal(list(args[1:])).items(it, node)
+        return [it.call(f, list(xs), {}, node) for xs in rows]
     seqs = [ops.iterate(it, a, node) for a in args[1:]]
     return [it.call(f, list(xs), {}, node) for xs in zip(*seqs)]
 
@@ -578,7 +607,7 @@ _BUILTINS = {
     "bool": _b_bool, "tuple": _b_tuple, "list": _b_list, "dict": _b_dict, "frozenset": _b_frozenset,
     "set": _b_frozenset, "isinstance": _b_isinstance, "min": _minmax(min), "max": _minmax(max),
     "abs": _b_abs, "hash": _b_hash, "repr": _b_repr, "type": _b_type, "getattr": _b_getattr,
-    "ord": _b_ord, "chr": _b_chr, "divmod": _b_divmod,
+    "ord": _b_ord, "chr": _b_chr, "divmod": _b_divmod, "pow": _b_pow,
 }
 
 
